@@ -53,6 +53,12 @@ def ordinalize(loc, n):
     return f"{n}{suf}" if suf else f"{n}"
 
 
+def _ord_expected(tok, nat, loc):
+    n = {"DDDo": nat.timetuple().tm_yday, "Do": nat.day, "Mo": nat.month, "Qo": (nat.month + 2) // 3,
+         "wo": nat.isocalendar()[1]}[tok]
+    return ordinalize(loc, n)
+
+
 def ref_token(tok, nat, loc, inst, zname):
     """Reference rendering of one token.  nat: native datetime twin; inst: instant us or None (naive)."""
     d = c18.data(loc)
@@ -529,6 +535,23 @@ def run_shard(shard):
                 for fmt in ("dddd D MMMM YYYY HH:mm:ss.SSSSSS Z", "ddd, D MMM YYYY HH:mm:ss.SSSSSS ZZ", "dd D MMMM YYYY H:m:s.SSSSSS z"):
                     check_roundtrip(acc, pendulum, "Europe/Paris", ff, loc, fmt, True)
                 check_tokens(acc, pendulum, "Asia/Kolkata", ff, loc)
+        # ordinal tokens over their whole ranges: every day of this month in the leap year 2024 (DDDo 1..366 over the
+        # twelve month shards, Do 1..31, and Mo / Qo / wo as they come) in every locale
+        import calendar as _cal
+        for loc in c18.LOCALES:
+            for day in range(1, _cal.monthrange(2024, shard["month"])[1] + 1):
+                nat = dt_.datetime(2024, shard["month"], day, 12, 0, 0)
+                x = pendulum.DateTime(2024, shard["month"], day, 12, 0, 0)
+                for tok in ("DDDo", "Do", "Mo", "Qo", "wo"):
+                    acc.c["evaluations"] += 1
+                    acc.c["transitions"] += 1
+                    want = _ord_expected(tok, nat, loc)
+                    try:
+                        got = x.format(tok, locale=loc)
+                    except Exception as e:  # noqa: BLE001
+                        got = f"raises {type(e).__name__}"
+                    if got != want:
+                        acc.mismatch("token", f"{tok}/ordinal-range", {"kind": "ord", "loc": loc, "m": shard["month"], "d": day, "tok": tok}, got, want)
         check_defaults(acc, pendulum)
         acc.sample({"localized_roundtrip": "dddd D MMMM YYYY HH:mm:ss.SSSSSS Z", "locales": 27})
     return acc.result()
@@ -541,6 +564,12 @@ def replay_case(case, acc):
         check_tokens(acc, pendulum, case["z"], tuple(case["f"]), case["loc"], pairs=("fmt" in case))
     elif k == "named":
         check_named(acc, pendulum, case["z"], tuple(case["f"]))
+    elif k == "ord":
+        nat = dt_.datetime(2024, case["m"], case["d"], 12, 0, 0)
+        got = pendulum.DateTime(2024, case["m"], case["d"], 12, 0, 0).format(case["tok"], locale=case["loc"])
+        want = _ord_expected(case["tok"], nat, case["loc"])
+        if got != want:
+            acc.mismatch("token", f"{case['tok']}/ordinal-range", case, got, want)
     elif k == "xt":
         check_extra(acc, pendulum, case["z"], tuple(case["f"]))
     elif k == "rt":
